@@ -30,6 +30,8 @@ func init() {
 			"comparisons between numbers that differ by less than the library's documented decimal-text equality, or that are the same value at different mantissa precisions, are Unspecified (see C02)",
 		},
 		Run: func(c *Ctx) {
+			// history clause first, so that each worker process meets it in its initial state
+			stdHistories(c, func(n string) bool { _, ok := refsC14[n]; return ok }, refOracle(refsC14))
 			cap := 60000
 			deepDict = c.Thorough
 			if c.Thorough {
